@@ -52,7 +52,7 @@ PROFILES = {
 THEOREM_MODULE = {p: "Cobweb.Theorems.%s" % p for p in PROJ}
 
 N_QUICK = 1500
-N_THOROUGH = 6000
+N_THOROUGH = 30000
 
 def project(pid, lines):
     keep = set(PROJ[pid]) | {"top", "end", "panic", "<timeout>", "fuel-out", "parse-error", "unsupported", "unsupported-in-exclusive", "runaway"}
